@@ -107,6 +107,53 @@ def indexOK (after : T) (existing : List String) (tipIdx : List Int) (nb : Int) 
   tipIdx == (List.range existing.length).map (fun (i : Nat) => Int.ofNat i) &&
   nb == (after.tipNames.length : Int)
 
+/- ## the rooted view (inputs whose root has exactly two neighbours) -/
+
+/-- same members (lists used as sets) -/
+def sameMembers (l₁ l₂ : List (List String)) : Bool := l₁.all l₂.contains && l₂.all l₁.contains
+
+/-- the clades of a tree: the set of tips below each branch, sorted -/
+def clades (t : T) : List (List String) := t.splits.map fun s => sortS s.below
+
+/-- the clades of the rooted subtree induced on `keep`: restrictions of the clades that are
+    neither empty nor everything (the root of the induced subtree is the last common ancestor of
+    the kept tips: a branch with every kept tip below it lies above that root) -/
+def restrictClades (before : T) (keep : List String) : List (List String) :=
+  let k := before.tipNames.filter keep.contains
+  (before.splits.map fun s => sortS (s.below.filter k.contains)).filter
+    fun c => !c.isEmpty && c.length != k.length
+
+/-- 7. The subtree induced by a ROOTED tree is rooted: its root is the last common ancestor of the
+    kept tips, i.e. its clades are exactly the proper non-empty restrictions of the original clades,
+    and depths below the root are the original ones up to the common offset (root-to-tip distances
+    differ by the same amount for all kept tips). -/
+def rootedOK (before : T) (names : List String) (rev : Bool) (after : T) : Bool :=
+  before.kids.length != 2 ||
+  (sameMembers (clades after) (restrictClades before (kept before names rev)) &&
+   (!(lensOK before) ||
+    (let k := kept before names rev
+     k.all fun a => k.all fun b =>
+       after.rootDist a - after.rootDist b == before.rootDist a - before.rootDist b)))
+
+/-- clause 2 compared as sets (what `removeTips_oracle_roottip` proves for every name set) -/
+def splitsOKm (before : T) (names : List String) (rev : Bool) (after : T) : Bool :=
+  sameMembers after.usplitSet (restrictSplits before.tipNames (kept before names rev) before.usplitSet)
+
+/-- same elements with the same multiplicities for lists without repeated elements -/
+def sameElems {α : Type} [BEq α] (l₁ l₂ : List α) : Bool :=
+  l₁.length == l₂.length && l₁.all l₂.contains && l₂.all l₁.contains
+
+/-- clause 5 compared up to the order of the lists (what `removeTips_data_roottip` proves) -/
+def dataOKm (before : T) (names : List String) (rev : Bool) (after : T) : Bool :=
+  let k := kept before names rev
+  let exp := restrictU before k
+  sameElems after.usplits (exp.filter (fun s => 2 ≤ lightSize k s.side)) &&
+  sameElems after.tipLens ((exp.filter (fun s => lightSize k s.side ≤ 1)).map (fun s => (s.side, s.len)))
+
+/-- a rooted binary tree: the root and every inner node have exactly two children (the region
+    where the current code keeps the root of a rooted input; see class RootedRootSuppressed) -/
+def rootedBin (t : T) : Bool := t.kids.length == 2 && binaryL t.kids
+
 /- ## the whole command (`pruneAll`) -/
 
 /-- every input tree satisfies the hypotheses of the theorems for the names the flags select -/
